@@ -62,7 +62,7 @@ fn execs() -> Vec<ExecFn> {
 
 fn main() {
     let args: Vec<String> = std::env::args().collect();
-    std::panic::set_hook(Box::new(|_| {}));
+    if std::env::var("OHSL_HARNESS_SHOW_PANICS").is_err() { std::panic::set_hook(Box::new(|_| {})); }
     match args.get(1).map(|s| s.as_str()) {
         Some("gen") => {
             let prop = &args[2];
